@@ -104,7 +104,13 @@ def _isempty_by_cases(ctx, f):
         outs = symcase.Evaluator(ctx, decider(is_fiber, equal)).run(f)
         if not outs or any(o.opaque or not o.returned or o.stores for o in outs):
             return None
-        return {norm(o.ret) for o in outs}
+        def unbool(e):
+            # bool(x) is as true as x
+            while isinstance(e, ast.Call) and text(e.func) == "bool" and \
+                    len(e.args) == 1 and not e.keywords:
+                e = e.args[0]
+            return e
+        return {norm(unbool(o.ret)) for o in outs}
     fib = terms(True, None) == {"%s.isEmpty()" % P}
     eq_terms = ("%s==%s" % (P, D), "%s==%s" % (D, P))
     t_eq, t_ne = terms(False, True), terms(False, False)
@@ -174,81 +180,88 @@ def _walk(stmts):
     return walk_own(stmts)
 
 
+def _elem_decider(recursive=None, fiber=None, empty=None):
+    """A case for one payload of the walked fiber: is `recursive` set, is
+    the payload a fiber, is it empty (w.r.t. the fiber's default).  The
+    payload variable may have any name."""
+    import re
+    pats = [(re.compile(r"^recursive$"), recursive),
+            (re.compile(r"^Payload\.contains\(\w+,Fiber\)$"), fiber),
+            (re.compile(r"^isinstance\(\w+,Fiber\)$"), fiber),
+            (re.compile(r"^Payload\.isEmpty\(\w+,default=self\.getDefault\(\)\)$"), empty)]
+
+    def decide(t):
+        tt = text(t).replace(" ", "")
+        for rx, val in pats:
+            if val is not None and rx.match(tt):
+                return val
+        return None
+    return decide
+
+
+def _count_term(ctx, view):
+    """(iterable, item variable, term text) of a function that returns 0 plus
+    one term per item, under a case; the term is '0' when nothing is added."""
+    sf = pat.sum_form(ctx, view)
+    if sf is not None and isinstance(sf["target"], ast.Name) and \
+            isinstance(sf["start"], ast.Constant) and sf["start"].value == 0:
+        return sf["iter"], sf["target"].id, \
+            pat.inline(ctx, view, sf["elt"]).replace(" ", ""), sf["node"]
+    # nothing is added in this case: `acc = 0; for ..: <nothing>; return acc`
+    rets = pat.returns(view)
+    if len(rets) == 1 and isinstance(rets[0].value, ast.Name):
+        v = rets[0].value.id
+        stores = [n for n in view.own_nodes() if isinstance(n, (ast.Assign, ast.AugAssign))
+                  and any(isinstance(x, ast.Name) and x.id == v
+                          for t in (n.targets if isinstance(n, ast.Assign) else [n.target])
+                          for x in ast.walk(t))]
+        if len(stores) == 1 and isinstance(stores[0], ast.Assign) and \
+                isinstance(stores[0].value, ast.Constant) and stores[0].value.value == 0:
+            return None, None, "0", rets[0]
+    return None
+
+
 def r2(ctx):
-    # countValues
+    # countValues, one payload at a time (sa/symcase.py case views): with
+    # `recursive` a fiber payload adds its own count, anything else adds 1
+    # exactly when it is not empty -- as a loop with `count += ..`, as
+    # sum(<term> for p in self.payloads), or split by an early return
+    from ..symcase import case_view
     f = ctx.method("Fiber", "countValues")
-    loops = [n for n in f.own_nodes() if isinstance(n, ast.For)]
-    sf = pat.sum_form(ctx, f) if not loops else None
-    if sf is not None and isinstance(sf["target"], ast.Name):
-        # `return sum(<per-payload term> for p in self.payloads)`: the term's
-        # alternatives play the part of the guarded `count += ..` statements
-        p = sf["target"].id
-        if iter_kind(ctx, f, sf["iter"]) == (RAW, "self") and \
-                isinstance(sf["start"], ast.Constant) and sf["start"].value == 0:
-            ctx.ok("C12.R2", f, sf["node"], "countValues walks the raw payload list")
+    cases = [("recursive, fiber payload", dict(recursive=True, fiber=True), "rec"),
+             ("recursive, non-empty leaf", dict(recursive=True, fiber=False, empty=False), "1"),
+             ("recursive, empty leaf", dict(recursive=True, fiber=False, empty=True), "0"),
+             ("not recursive, non-empty payload", dict(recursive=False, empty=False), "1"),
+             ("not recursive, empty payload", dict(recursive=False, empty=True), "0")]
+    walk_ok, body_ok, anchor = True, True, f.node
+    for label, case, want in cases:
+        view = case_view(f, _elem_decider(**case), "countValues: " + label)
+        got = _count_term(ctx, view)
+        if got is None:
+            body_ok = False
+            continue
+        it, var, term, node = got
+        anchor = node
+        if it is not None and iter_kind(ctx, view, it) != (RAW, "self"):
+            walk_ok = False
+        if want == "rec":
+            good = term in ("Payload.get(%s).countValues()" % var, "%s.countValues()" % var)
         else:
-            ctx.bad("C12.R2", f, sf["node"], "countValues must walk self.payloads",
-                    text_="countValues loop")
-        fib = {pat.T("recursive"), pat.T("Payload.contains(%s,Fiber)" % p)}
-        notfib = pat.T("recursive and Payload.contains(%s, Fiber)" % p, False)
-        nonempty = pat.T("Payload.isEmpty(%s, default=self.getDefault())" % p, False)
-        rec = leaf = other = 0
-        for g, v in pat.ifexp_alternatives(None, None, sf["elt"]):
-            if isinstance(v, ast.Constant) and v.value == 0:
-                continue
-            if set(g) == fib and text(v).replace(" ", "") in (
-                    "Payload.get(%s).countValues()" % p, "%s.countValues()" % p):
-                rec += 1
-            elif set(g) == {notfib, nonempty} and text(v) == "1":
-                leaf += 1
-            else:
-                other += 1
-        if rec == 1 and leaf == 1 and not other:
-            ctx.ok("C12.R2", f, sf["node"], "recurses into fiber payloads, "
-                   "counts a leaf iff not empty")
-        else:
-            ctx.bad("C12.R2", f, sf["node"], "countValues no longer "
-                    "recurses into fiber payloads and counts a leaf iff it is "
-                    "not empty", text_="countValues body")
-        loops = None
-    ok = loops is not None and len(loops) == 1 and \
-        iter_kind(ctx, f, loops[0].iter) == (RAW, "self")
-    if loops is None:
-        pass
-    elif ok:
-        ctx.ok("C12.R2", f, loops[0], "countValues walks the raw payload list")
+            good = term == want
+        if not good:
+            body_ok = False
+    if walk_ok:
+        ctx.ok("C12.R2", f, anchor, "countValues walks the raw payload list")
     else:
-        ctx.bad("C12.R2", f, loops[0] if loops else f.node, "countValues must "
-                "walk self.payloads", text_="countValues loop")
-    if loops:
-        p = text(loops[0].target)
-        rets = pat.returns(f)
-        cvar = text(rets[0].value) if len(rets) == 1 else None
-        acts = [(g, st, v) for g, st, v in pat.guarded_actions(ctx, f, loops[0].body)
-                if not (isinstance(st, ast.AugAssign) and text(st.target) == cvar
-                        and isinstance(st.op, ast.Add) and text(v) == "0")]
-        fib = {pat.T("recursive"), pat.T("Payload.contains(%s,Fiber)" % p)}
-        notfib = pat.T("recursive and Payload.contains(%s, Fiber)" % p, False)
-        nonempty = pat.T("Payload.isEmpty(%s, default=self.getDefault())" % p, False)
-        rec = leaf = other = 0
-        for g, st, v in acts:
-            if not (isinstance(st, ast.AugAssign) and text(st.target) == cvar
-                    and isinstance(st.op, ast.Add)):
-                other += 1
-            elif g == fib and pat.inline(ctx, f, v).replace(" ", "") in (
-                    "Payload.get(%s).countValues()" % p, "%s.countValues()" % p):
-                rec += 1
-            elif g == {notfib, nonempty} and text(v) == "1":
-                leaf += 1
-            else:
-                other += 1
-        if rec == 1 and leaf == 1 and not other:
-            ctx.ok("C12.R2", f, loops[0].body[0], "recurses into fiber payloads, "
-                   "counts a leaf iff not empty")
-        else:
-            ctx.bad("C12.R2", f, loops[0].body[0], "countValues no longer "
-                    "recurses into fiber payloads and counts a leaf iff it is "
-                    "not empty", text_="countValues body")
+        ctx.bad("C12.R2", f, anchor, "countValues must walk self.payloads",
+                text_="countValues loop")
+    if body_ok:
+        ctx.ok("C12.R2", f, anchor, "recurses into fiber payloads, "
+               "counts a leaf iff not empty")
+    else:
+        ctx.bad("C12.R2", f, anchor, "countValues no longer "
+                "recurses into fiber payloads and counts a leaf iff it is "
+                "not empty", text_="countValues body")
     # Tensor.countValues: content is counted from the tree, not from the
     # rank lists (bookkeeping that lags behind direct edits of the tree)
     ft = ctx.method("Tensor", "countValues")
@@ -284,52 +297,71 @@ def r2(ctx):
         ctx.bad("C12.R2", f, f.node, "Fiber.isEmpty is no longer `all payloads "
                 "are empty` over the raw payload list (e.g. any(...), or a "
                 "filtered iteration)", text_="def isEmpty(self)")
-    # nonEmpty
+    # nonEmpty, one element at a time: an empty payload is dropped, a
+    # non-empty fiber payload is kept as its own nonEmpty(), any other payload
+    # as it is; the result is built through _newFiber
     f = ctx.method("Fiber", "nonEmpty")
-    loops = [n for n in f.own_nodes() if isinstance(n, ast.For)]
-    ok = len(loops) == 1 and iter_kind(ctx, f, loops[0].iter) == (RAW, "self")
-    if not ok:
-        ctx.bad("C12.R2", f, f.node, "nonEmpty must walk zip(self.coords, "
-                "self.payloads)", text_="nonEmpty loop")
-    else:
-        c, p = [text(e) for e in loops[0].target.elts]
+    cases = [("empty payload", dict(empty=True), None),
+             ("non-empty fiber payload", dict(empty=False, fiber=True), "fiber"),
+             ("non-empty leaf", dict(empty=False, fiber=False), "leaf")]
+    good, why, anchor = True, "", f.node
+    for label, case, want in cases:
+        view = case_view(f, _elem_decider(**case), "nonEmpty: " + label)
+        loops = [n for n in view.own_nodes() if isinstance(n, ast.For)]
+        if len(loops) != 1 or iter_kind(ctx, view, loops[0].iter) != (RAW, "self") or \
+                not (isinstance(loops[0].target, ast.Tuple) and len(loops[0].target.elts) == 2):
+            ctx.bad("C12.R2", f, f.node, "nonEmpty must walk zip(self.coords, "
+                    "self.payloads)", text_="nonEmpty loop")
+            good = None
+            break
+        lp = loops[0]
+        anchor = lp
+        c, p = [text(e) for e in lp.target.elts]
         built = None
-        for r in pat.returns(f):
+        for r in pat.returns(view):
             v = r.value
             if isinstance(v, ast.Call) and text(v.func) == "self._newFiber" and \
                     len(v.args) == 2 and all(isinstance(a, ast.Name) for a in v.args):
                 built = (v.args[0].id, v.args[1].id)
-        keep = rec = False
-        if built:
-            cl, pl = built
-            nonempty = pat.T("Payload.isEmpty(%s, default=self.getDefault())" % p, False)
-            isfib = "Payload.contains(%s,Fiber)" % p
-            seen = []
-            stray = 0
-            for g, st, v in pat.guarded_actions(ctx, f, loops[0].body):
-                call = v if isinstance(v, ast.Call) else None
-                fn = text(call.func) if call is not None else ""
-                a0 = text(call.args[0]).replace(" ", "") if call is not None and call.args else ""
-                if fn == cl + ".append" and a0 == c and g - {pat.T(isfib), pat.T(isfib, False)} == {nonempty}:
-                    seen.append("c")
-                elif fn == pl + ".append" and g == {nonempty, pat.T(isfib)} and \
-                        a0 == "%s.nonEmpty()" % p:
-                    seen.append("pf")
-                elif fn == pl + ".append" and g == {nonempty, pat.T(isfib, False)} and a0 == p:
-                    seen.append("pl")
-                else:
-                    stray += 1
-            keep = seen.count("c") in (1, 2) and not stray
-            rec = seen.count("pf") == 1 and seen.count("pl") == 1
-        built = bool(built)
-        if keep and rec and built:
-            ctx.ok("C12.R2", f, loops[0], "keeps exactly the non-empty elements, "
-                   "recurses, builds through _newFiber")
+        if not built:
+            good, why = False, "the result is not built through _newFiber(coords, payloads)"
+            break
+        cl, pl = built
+        app = {cl: [], pl: []}
+        cond = False
+        for st in lp.body:
+            for n in ([st] if isinstance(st, ast.Expr) else _walk([st])):
+                call = n.value if isinstance(n, ast.Expr) else n
+                if isinstance(call, ast.Call) and isinstance(call.func, ast.Attribute) \
+                        and call.func.attr in ("append", "insert", "extend") and \
+                        text(call.func.value) in app:
+                    if not isinstance(st, ast.Expr) or call.func.attr != "append" \
+                            or len(call.args) != 1:
+                        cond = True
+                    else:
+                        app[text(call.func.value)].append(
+                            pat.inline(ctx, view, call.args[0]).replace(" ", ""))
+        if cond:
+            good, why = False, "for %s an element is added under a further condition" % label
+        elif want is None:
+            if app[cl] or app[pl]:
+                good, why = False, "an empty payload is kept"
         else:
-            ctx.bad("C12.R2", f, loops[0], "nonEmpty no longer keeps exactly the "
-                    "non-empty elements (recursing into fiber payloads) and "
-                    "builds the result through _newFiber",
-                    text_="nonEmpty body")
+            wp = ("%s.nonEmpty()" % p, "Payload.get(%s).nonEmpty()" % p) \
+                if want == "fiber" else (p,)
+            if app[cl] != [c] or len(app[pl]) != 1 or app[pl][0] not in wp:
+                good, why = False, "for a %s it keeps coordinates %s, payloads %s" % (
+                    label, app[cl], app[pl])
+        if not good:
+            break
+    if good:
+        ctx.ok("C12.R2", f, anchor, "keeps exactly the non-empty elements, "
+               "recurses, builds through _newFiber")
+    elif good is False:
+        ctx.bad("C12.R2", f, anchor, "nonEmpty no longer keeps exactly the "
+                "non-empty elements (recursing into fiber payloads) and "
+                "builds the result through _newFiber (%s)" % why,
+                text_="nonEmpty body")
 
 
 def _consts_compared(f, var=None):
@@ -385,9 +417,25 @@ def r3(ctx):
     f = ctx.method("Fiber", "__eq__")
     other = f.params[1]
     loops = [n for n in f.own_nodes() if isinstance(n, ast.For)]
-    ctx.require(len(loops) == 1, "C12.R3: Fiber.__eq__ loop not found")
-    lp = loops[0]
-    it = lp.iter
+    quant = None
+    if not loops:
+        # `return not any(<differs> for c, (mask, a, b) in self | other)` /
+        # `return all(..)`, once the non-fiber case is out of the way
+        from ..symcase import case_view
+        isf = "isinstance(%s,Fiber)" % other
+
+        def is_fiber(t):
+            return True if text(t).replace(" ", "") == isf else None
+        quant = pat.forall_form(ctx, case_view(f, is_fiber, "operand is a Fiber"))
+    ctx.require(len(loops) == 1 or quant is not None, "C12.R3: Fiber.__eq__ loop not found")
+    if quant is not None:
+        it, _var, pred, qpol, lp = quant
+        tgt = [g for n in ast.walk(lp) if isinstance(n, (ast.GeneratorExp, ast.ListComp))
+               for g in n.generators]
+        target = tgt[0].target if tgt else None
+    else:
+        lp = loops[0]
+        it, target = lp.iter, lp.target
     if isinstance(it, ast.Name):
         d = pat.single_def(ctx, f, it)
         it = d if d is not None else it
@@ -398,19 +446,27 @@ def r3(ctx):
         ctx.bad("C12.R3", f, lp, "Fiber.__eq__ iterates `%s`, not the union "
                 "self | other: elements present on one side only are not seen"
                 % text(it))
-    names = [text(e) for e in lp.target.elts[1].elts] if isinstance(
-        lp.target, ast.Tuple) and isinstance(lp.target.elts[1], ast.Tuple) else []
+    names = [text(e) for e in target.elts[1].elts] if isinstance(
+        target, ast.Tuple) and len(target.elts) == 2 and \
+        isinstance(target.elts[1], ast.Tuple) else []
     ctx.require(len(names) == 3, "C12.R3: __eq__ loop target not (c, (mask, a, b))")
     mask, pa, pb = names
     from ..cfg import atomic_guards
+
+    def core_of(g_):
+        # `mask != <other literal>` atoms are implied by the chain position
+        return {a for a in g_ if not (a[0] == "!=" and mask in a[1:] and
+                                      any(x.startswith("'") for x in a[1:]))}
     rejects = []
-    for r in pat.returns(f):
-        if text(r.value) == "False" and r in list(_walk(lp.body)):
-            for g_ in pat.guard_dnf(ctx, f, r, stop=lp) or []:
-                # `mask != <other literal>` atoms are implied by the chain position
-                core = {a for a in g_ if not (a[0] == "!=" and mask in a[1:] and
-                                              any(x.startswith("'") for x in a[1:]))}
-                rejects.append((core, r))
+    if quant is not None:
+        # the fibers differ where the quantified condition fails
+        for g_ in pat.cdnf(ctx, f, pat.ifexp_as_bool(pred), not qpol) or []:
+            rejects.append((core_of(g_), lp))
+    else:
+        for r in pat.returns(f):
+            if text(r.value) == "False" and r in list(_walk(lp.body)):
+                for g_ in pat.guard_dnf(ctx, f, r, stop=lp) or []:
+                    rejects.append((core_of(g_), r))
     need = [
         ([{pat.A("==", mask, "'A'")}], "an element only in self"),
         ([{pat.A("==", mask, "'B'")}], "an element only in other"),
@@ -429,10 +485,13 @@ def r3(ctx):
                     text_="__eq__ rejects %s" % what)
     g = cfg_of(f, assert_edges=False)
     trues = [r for r in pat.returns(f) if text(r.value) == "True"]
-    after = [r for r in trues if r not in list(_walk(lp.body))
+    after = [r for r in trues if quant is None and r not in list(_walk(lp.body))
              and g.can_reach(lp, r)]
-    inside = [r for r in trues if r in list(_walk(lp.body))]
-    if after and not inside:
+    inside = [r for r in trues if quant is None and r in list(_walk(lp.body))]
+    if quant is not None:
+        ctx.ok("C12.R3", f, lp, "True exactly when no element differs "
+               "(a quantifier over the whole union)")
+    elif after and not inside:
         ctx.ok("C12.R3", f, after[0], "True only after every element was compared")
     else:
         ctx.bad("C12.R3", f, (inside or [f.node])[0], "Fiber.__eq__ can return "
@@ -440,7 +499,7 @@ def r3(ctx):
                 text_="__eq__ returns True early")
     nf = False
     for r in pat.returns(f):
-        if text(r.value) == "False" and not is_in_loop(r, lp):
+        if text(r.value) == "False" and (quant is not None or not is_in_loop(r, lp)):
             g_ = {pat.catom(ctx, f, t, pol, False) for t, pol in atomic_guards(r)}
             if g_ == {pat.T("isinstance(%s, Fiber)" % other, False)}:
                 nf = True
